@@ -13,6 +13,12 @@ EQUIVALENT = {
 }
 
 
+NOT_A_MISS = {
+    "C05F": "not reported, by design: the table maps 'low' to 0.1 but compute_gamma's docstring says 'low : 5%'; the statement does not fix the number, "
+            "so the check accepts both (stated in its ASSUMPTIONS). Every other named or numeric level is pinned.",
+}
+
+
 def first_sig(vlist):
     if not vlist:
         return ""
@@ -33,6 +39,7 @@ def main():
               "| id | what it needs in order to manifest | caught by (quick tier) | first signature |", "|---|---|---|---|"]
     sd = os.path.join(VERIF, "seeded")
     n_total = n_caught = 0
+    notes = []
     for sid in sorted(os.listdir(sd)):
         mp = os.path.join(sd, sid, "meta.json")
         if not os.path.exists(mp):
@@ -53,11 +60,17 @@ def main():
             sig = first_sig(src.get(p, {}).get("violations", []))
             if sig:
                 break
-        lines.append(f"| {sid} | {m.get('needs_to_manifest', '')} | {', '.join(caught) if caught else '**missed**'} | `{sig}` |")
-    lines += ["", f"{n_caught} of {n_total} kept seeded changes are caught by at least one registered quick check. "
-              "Several were missed by the first version of the checks and led to the strengthenings listed in section 9 "
-              "(C04B, C05A, C05B, C06B, C07A, C07B, C09B, C11A, C12B, C14B, C15A, C19A, C19B, C20B); one further agent output (C02 variant B) duplicates C01B/C08A "
-              "and is not kept separately.", ""]
+        verdict = ", ".join(caught) if caught else ("accepted variant (see note)" if sid in NOT_A_MISS else "**missed**")
+        if not caught and sid in NOT_A_MISS:
+            notes.append(f"* {sid}: {NOT_A_MISS[sid]}")
+        lines.append(f"| {sid} | {m.get('needs_to_manifest', '')} | {verdict} | `{sig}` |")
+    lines += ["", f"{n_caught} of {n_total} kept seeded changes are caught by at least one registered quick check. Ids ending in A/B come from the first round, "
+              "C/D from the second (agents were told what the first round had tried and asked for state carried between calls, interacting sites, rarely used "
+              "paths), E/F from the third (told about both earlier rounds; asked for arithmetic, boundary, option-interaction and timing faults). "
+              "Changes missed by the version of the checks that existed when they arrived, and the strengthening each one led to (section 9): "
+              "round 1 - C04B, C05A, C05B, C06B, C07A, C07B, C09B, C11A, C12B, C14B, C15A, C19A, C19B, C20B; round 2 - C04D (C04 itself; C02/C07 caught it), C07D, "
+              "C09D (caught by C02 `larger`), C14D, and C20C/C20D whose demonstrations had to be run from inside the scratch worktree; round 3 - C06E, C16F. "
+              "One further agent output (round-1 C02 variant B) duplicates C01B/C08A and is not kept separately.", ""] + notes + [""]
     # ---- hand-written faults
     rp = os.path.join(VERIF, "sensitivity", "results.json")
     if os.path.exists(rp):
